@@ -302,3 +302,22 @@ Theorem db_fold_frame : forall s h nb ko g d,
   state_ok s -> handle_db s g = Some d -> handle_db (fst (step s (OpFold h nb ko))) g = Some d.
 Proof. exact db_fold_frame. Qed.
 Print Assumptions db_fold_frame.
+
+(* count databases store uint16: a folded count is the exact sum of the colliding counts whenever that sum is at most
+   count_dtype_max = 65535, and the sum modulo 2^16 beyond it (representability limit of COUNT_FP_DTYPE; Fingerprint.fold
+   has no such limit, so database fold = fingerprint fold exactly on the premise "every folded sum <= 65535") *)
+Theorem db_fold_count_no_overflow : forall zs,
+  0 <= fold_right Z.add 0 zs <= count_dtype_max ->
+  ksum KCount (map inject_Z zs) = inject_Z (fold_right Z.add 0 zs).
+Proof. exact db_fold_count_no_overflow. Qed.
+Print Assumptions db_fold_count_no_overflow.
+
+Theorem db_fold_count_wraps : forall zs,
+  ksum KCount (map inject_Z zs) = inject_Z (fold_right Z.add 0 zs mod (count_dtype_max + 1)).
+Proof. exact db_fold_count_wraps. Qed.
+Print Assumptions db_fold_count_wraps.
+
+Example fold_overflow_example :
+  fold_row KCount 8 [(1, inject_Z 40000); (9, inject_Z 40000)] = [(1, inject_Z 14464)]
+  /\ fold_row KCount 8 [(1, inject_Z 30000); (9, inject_Z 30000)] = [(1, inject_Z 60000)].
+Proof. exact fold_overflow_example. Qed.
